@@ -6,6 +6,7 @@ import (
 	"fmt"
 	"go/token"
 	"go/types"
+	"sort"
 
 	"golang.org/x/tools/go/ssa"
 )
@@ -396,12 +397,31 @@ func ruleSchemaFlow(c *Ctx) []Obligation {
 	// the If on dispatch != nil
 	var nilIf *ssa.If
 	var nilSucc *ssa.BasicBlock
+	// the value tested may be the lookup itself or a variable that holds the lookup or nil
+	// (fn := table[kw]; if reserved(kw) { fn = nil }; if fn != nil …)
+	tested := map[ssa.Value]bool{dispatch: true}
+	var refs []ssa.Instruction
+	refs = append(refs, *dispatch.Referrers()...)
 	for _, r := range *dispatch.Referrers() {
+		if phi, isPhi := r.(*ssa.Phi); isPhi {
+			only := true
+			for _, e := range phi.Edges {
+				if e != ssa.Value(dispatch) && !isNilConst(e) {
+					only = false
+				}
+			}
+			if only {
+				tested[phi] = true
+				refs = append(refs, *phi.Referrers()...)
+			}
+		}
+	}
+	for _, r := range refs {
 		bo, ok := r.(*ssa.BinOp)
 		if !ok {
 			continue
 		}
-		if x, isEq, okn := nilTest(bo); okn && x == ssa.Value(dispatch) {
+		if x, isEq, okn := nilTest(bo); okn && tested[x] {
 			for _, rr := range *bo.Referrers() {
 				if ifi, ok := rr.(*ssa.If); ok {
 					nilIf = ifi
@@ -411,6 +431,58 @@ func ruleSchemaFlow(c *Ctx) []Obligation {
 						nilSucc = ifi.Block().Succs[1]
 					}
 				}
+			}
+		}
+	}
+	// the builder's own entries: constant keys it looks up itself (Name, Statement, Parent). They are not
+	// keywords; a substatement spelled like one must not be dispatched to them.
+	{
+		fTable := dispatch.X
+		_, tf, _ := loadedField(fTable)
+		own := map[string]string{}
+		eachInstr(build, func(in ssa.Instruction) {
+			l, isL := in.(*ssa.Lookup)
+			if !isL || l == dispatch {
+				return
+			}
+			if _, lf, _ := loadedField(l.X); lf != tf || tf == nil {
+				return
+			}
+			if k, isK := constString(l.Index); isK {
+				own[k] = c.InstrPos(in)
+			}
+		})
+		excluded := map[string]bool{}
+		keyPath := AccessPath(dispatch.Index)
+		eachInstr(build, func(in ssa.Instruction) {
+			bo, isB := in.(*ssa.BinOp)
+			if !isB || bo.Op != token.EQL {
+				return
+			}
+			var k string
+			var other ssa.Value
+			if s, isK := constString(bo.Y); isK {
+				k, other = s, bo.X
+			} else if s, isK := constString(bo.X); isK {
+				k, other = s, bo.Y
+			} else {
+				return
+			}
+			if (other == dispatch.Index || AccessPath(other) == keyPath) && header.Dominates(in.Block()) && len(tested) > 1 {
+				excluded[k] = true
+			}
+		})
+		var names []string
+		for k := range own {
+			names = append(names, k)
+		}
+		sort.Strings(names)
+		for _, k := range names {
+			con := fmt.Sprintf("the builder's own table entry %q is not reachable as a substatement keyword", k)
+			if excluded[k] {
+				obs = append(obs, ok(R, con, own[k], "the dispatch variable is set to nil when the substatement's keyword equals this name"))
+			} else {
+				obs = append(obs, bad(R, con, own[k], "a substatement whose keyword is spelled "+k+" finds the entry that fills the node from the statement itself: it is accepted as a known substatement instead of being rejected as unknown"))
 			}
 		}
 	}
